@@ -94,7 +94,7 @@ def c04_jobs(tier):
         for n in (m, 2 * m, 2 * m + 1, 3 * m - 1):
             jobs.append(J('root', 'H_C04_lc_proto', [n, m]))
     for m in ((2, 3) if q else (2, 3, 4)):
-        for n in (m * m, m * m + 1, 2 * m * m, 2 * m * m + 3):
+        for n in ((m * m, m * m + 1, 2 * m * m, 2 * m * m + 3) if m < 4 else (16, 17)):      # 4x4 with two matrices: counts not paired in time
             jobs.append(J('root', 'H_C04_rank', [n, m]))
     if q:
         for lo in (0, 42, 85, 124):
@@ -461,7 +461,7 @@ PROPS = {
     'C04': {
         'jobs': c04_jobs,
         'bounds': {'quick': 'linearComplexity kernel: crash freedom + shortest-LFSR definition for every block of M<=9 bits, crash freedom M in {10,12,14}; LinearComplexityProto m in 3..6, N<=2 blocks + tail; MatrixRankProto with m x m matrices m in {2,3}, N<=2 + tail; MaurerUniversalTest at the real L=7, Q=1280 with K=1 test block (n=8967 symbolic bits), one obligation per value of the test block; quick: 16 of the 128 values (0..3, 42..45, 85..88, 124..127)',
-                   'thorough': 'LC kernel definition M<=12, crash freedom M<=20; Proto m<=8; rank m<=4; Maurer: all 128 values of the test block at n=8967 and n=8970 (discarded tail); K>=2 test blocks are outside (one group of 8 values takes more than 20 minutes)'},
+                   'thorough': 'LC kernel definition M<=12, crash freedom M<=20; Proto m<=8; rank m<=3 with N<=2 matrices, 4x4 with one matrix (+ tail); Maurer: all 128 values of the test block at n=8967 and n=8970 (discarded tail); K>=2 test blocks are outside (one group of 8 values takes more than 20 minutes)'},
         'outside': 'production sizes (32x32 matrices, m=500/1000/5000 blocks) are outside: the same code runs there but neither the definitional spec nor the merged symbolic elimination is within reach; Maurer with more than 2 test blocks; binary64 rounding; igamc accuracy',
         'assumptions': ['float64 tails as exact reals; igamc/erfc/log/pow uninterpreted', 'class of T decided from the integer L (exact: offsets stay within (-1/2,1/2))'],
     },
